@@ -2,6 +2,7 @@ package g_hstream
 
 import (
 	"context"
+	"fmt"
 	"encoding/base64"
 	"encoding/json"
 	"net/http"
@@ -24,11 +25,28 @@ type c13Ident struct {
 	Principal string `json:"principal"`
 }
 
+// key is an injective rendering of the identity (the harness's own notion of
+// "the same identity").
 func (i c13Ident) key() string {
 	if i.Anon {
 		return "anon"
 	}
-	return "auth|" + i.Domain + "|" + i.Principal
+	return fmt.Sprintf("auth|%d|%s|%s", len(i.Domain), i.Domain, i.Principal)
+}
+
+// String renders the identity for messages: long components show their
+// length and both ends.
+func (i c13Ident) String() string {
+	if i.Anon {
+		return "anon"
+	}
+	short := func(s string) string {
+		if len(s) <= 48 {
+			return fmt.Sprintf("%q", s)
+		}
+		return fmt.Sprintf("%q…(%d bytes)…%q", s[:16], len(s), s[len(s)-16:])
+	}
+	return "auth(" + short(i.Domain) + ", " + short(i.Principal) + ")"
 }
 
 func (i c13Ident) header() map[string]string {
@@ -80,9 +98,75 @@ func genIdent(t *rapid.T, label string) c13Ident {
 		Principal: c13Principals[rapid.IntRange(0, len(c13Principals)-1).Draw(t, label+"p")]}
 }
 
+// c13PrefixLens are the lengths at which a rendering of an identity is likely
+// to change behaviour (fixed-size buffers, hash blocks, length bytes, log field
+// limits): powers of two with their neighbours.
+var c13PrefixLens = func() []int {
+	var out []int
+	for n := 8; n <= 4096; n *= 2 {
+		out = append(out, n-1, n, n+1)
+	}
+	return out
+}()
+
+var c13Segments = []string{"a", "/OU=unit", "/O=Example Corp", "tenant/", "é", "дом", "x.", "spiffe://td/ns/", "0123456789", "\u65e5\u672c"}
+var c13Tails = []string{"", "a", "b", "alice", "bob", "/CN=alice", "/CN=bob", "A", "aa", " ", "é", "e", "0", "1", "\x00", "a\x00", "anonymous"}
+
+// genC13Stem builds a valid-UTF-8 string of exactly n bytes.
+func genC13Stem(t *rapid.T, n int) string {
+	seg := c13Segments[rapid.IntRange(0, len(c13Segments)-1).Draw(t, "seg")]
+	var b strings.Builder
+	for b.Len()+len(seg) <= n {
+		b.WriteString(seg)
+	}
+	for b.Len() < n {
+		b.WriteByte('x')
+	}
+	return b.String()
+}
+
+// genC13Siblings draws two different identities that agree on a common stem of
+// a drawn length in one component (the principal, or the NUL-free domain) and
+// differ only after it; the other component is shared. Further identities on
+// the same stem may precede them in the history.
+func genC13Siblings(t *rapid.T, c *c13Case) {
+	n := c13PrefixLens[rapid.IntRange(0, len(c13PrefixLens)-1).Draw(t, "stemlen")]
+	if rapid.IntRange(0, 3).Draw(t, "stemany") == 0 {
+		n = rapid.IntRange(0, 700).Draw(t, "stemn")
+	}
+	stem := genC13Stem(t, n)
+	inDomain := rapid.IntRange(0, 3).Draw(t, "stemdomain") == 0
+	tail := func(label string) string {
+		for {
+			s := c13Tails[rapid.IntRange(0, len(c13Tails)-1).Draw(t, label)]
+			if !inDomain || !strings.Contains(s, "\x00") {
+				return s
+			}
+		}
+	}
+	ta, tb := tail("tail-a"), tail("tail-b")
+	for tb == ta {
+		tb = tail("tail-b'")
+	}
+	other := genIdent(t, "stemother")
+	mk := func(tl string) c13Ident {
+		if inDomain {
+			return c13Ident{Domain: stem + tl, Principal: other.Principal}
+		}
+		return c13Ident{Domain: other.Domain, Principal: stem + tl}
+	}
+	c.Mint, c.Present = mk(ta), mk(tb)
+	for i := range c.Prefix {
+		if rapid.Bool().Draw(t, "stemhist") {
+			c.Prefix[i] = mk(tail("tail-h"))
+		}
+	}
+}
+
 func genC13(t *rapid.T) c13Case {
 	c := c13Case{Mint: genIdent(t, "m"), Cache0: rapid.Bool().Draw(t, "cache0"), Exchange: rapid.Bool().Draw(t, "exch")}
-	switch rapid.IntRange(0, 4).Draw(t, "rel") {
+	rel := rapid.IntRange(0, 6).Draw(t, "rel")
+	switch rel {
 	case 0:
 		c.Present = c.Mint
 	case 1: // differ in exactly one component
@@ -115,6 +199,9 @@ func genC13(t *rapid.T) c13Case {
 	}
 	if c.Position == "session" {
 		c.SessDelete = rapid.IntRange(0, 2).Draw(t, "sessdelete") == 0
+	}
+	if rel >= 5 {
+		genC13Siblings(t, &c)
 	}
 	return c
 }
@@ -291,7 +378,7 @@ func (c c13Case) run(prefix []c13Ident, out *lib.Outcome) (accepted bool, status
 			lib.PostArrow(h, "/sess_use", lib.BuildRequest("sess_use", lib.EmptyBatch(arrow.NewSchema(nil, nil)), lib.ReqOpts{}), mh)
 			alive := len(lib.Events("sess")) > b0
 			if !closed && !alive && c.Kind == "session" && c.Transform == "asis" {
-				out.Violate("C13/foreign-delete-closed-session", "DELETE /__session__ by %s answered %d, but the session of %s no longer resolves for its owner", c.Present.key(), resp.Status, c.Mint.key())
+				out.Violate("C13/foreign-delete-closed-session", "DELETE /__session__ by %s answered %d, but the session of %s no longer resolves for its owner", c.Present, resp.Status, c.Mint)
 			}
 			if closed && alive {
 				out.Violate("C13/delete-204-but-session-alive", "DELETE answered 204 but the session still resolves")
@@ -353,6 +440,24 @@ func runC13(c c13Case) (out lib.Outcome) {
 	out.NonTrivial = diffs == 1 || !sameKind
 	if diffs == 1 {
 		out.Label("one-component-differs")
+		a, b, comp := c.Mint.Principal, c.Present.Principal, "principal"
+		if c.Mint.Domain != c.Present.Domain {
+			a, b, comp = c.Mint.Domain, c.Present.Domain, "domain"
+		}
+		cp := 0
+		for cp < len(a) && cp < len(b) && a[cp] == b[cp] {
+			cp++
+		}
+		pow2 := func(n int) bool { return n >= 8 && n&(n-1) == 0 }
+		if cp >= 64 {
+			out.Label("common-stem>=64:" + comp)
+		}
+		if cp >= 1024 {
+			out.Label("common-stem>=1024")
+		}
+		if pow2(cp-1) || pow2(cp) || pow2(cp+1) {
+			out.Label("common-stem-at-power-of-two")
+		}
 	}
 	if !sameKind {
 		out.Label("kind-confusion:" + c.Transform)
@@ -385,7 +490,7 @@ func runC13(c c13Case) (out lib.Outcome) {
 		if !sameKind {
 			key = lib.Keyf("C13", "kind-confusion-accepted", c.Kind, c.Position, c.Transform)
 		}
-		out.Violate(key, "mint=%s present=%s kind=%s at %s (%s): accepted=%v (status %d), expected %v", c.Mint.key(), c.Present.key(), c.Kind, c.Position, c.Transform, acc, status, want)
+		out.Violate(key, "mint=%s present=%s kind=%s at %s (%s): accepted=%v (status %d), expected %v", c.Mint, c.Present, c.Kind, c.Position, c.Transform, acc, status, want)
 		return
 	}
 	// history independence
@@ -401,11 +506,12 @@ func runC13(c c13Case) (out lib.Outcome) {
 
 var propC13 = lib.Prop[c13Case]{
 	ID: "C13",
-	Rule: "ordered pairs (minting identity, presenting identity) over anonymous and (domain, principal) with NUL-free domains (empty, unicode, 'anonymous') and arbitrary principals (empty, with NUL, values colliding under naive framing), biased to pairs differing in exactly one component; token kinds cursor, call, sticky-session, presented at their own or another kind's position (a session token on a call bearing it or at the DELETE /__session__ teardown route) as-is, re-encoded in the other alphabet, or with the version byte rewritten; a prefix history of 0-3 other identities using streams and sessions first; call cache default/disabled; producer and exchange. " +
+	Rule: "ordered pairs (minting identity, presenting identity) over anonymous and (domain, principal) with NUL-free domains (empty, unicode, 'anonymous') and arbitrary principals (empty, with NUL, values colliding under naive framing), biased to pairs differing in exactly one component; two cases in seven are sibling identities: one component (principal, or NUL-free domain) of both is a common stem of 0-4097 bytes (powers of two and their neighbours preferred, ASCII / multi-byte segments) followed by different short tails, with further siblings on the same stem in the history; token kinds cursor, call, sticky-session, presented at their own or another kind's position (a session token on a call bearing it or at the DELETE /__session__ teardown route) as-is, re-encoded in the other alphabet, or with the version byte rewritten; a prefix history of 0-3 other identities using streams and sessions first; call cache default/disabled; producer and exchange. " +
 		"Oracle: accepted iff presenting identity = minting identity and kind = position; refusals are client errors / session_lost and run no state code; same decision with an empty prefix history. Non-trivial: identities differ in exactly one component, or a kind-confusion presentation.",
 	Gen:          genC13,
 	Run:          runC13,
-	Essential:    []string{"legit", "one-component-differs", "kind-confusion:reversion", "kind:session", "pos:session", "session-delete"},
+	Essential:    []string{"legit", "one-component-differs", "kind-confusion:reversion", "kind:session", "pos:session", "session-delete",
+		"common-stem>=64:principal", "common-stem>=64:domain", "common-stem>=1024", "common-stem-at-power-of-two"},
 	EssentialMin: 300,
 }
 
